@@ -246,6 +246,15 @@ fn grid(level: u32) -> Vec<Case> {
         let seps = ["||", " ||", "|| ", "  ||  "];
         out.push(Case { text: format!("{}{}{}", a.text, seps[(ai + bi) % 4], b.text), rr });
     } }
+    // the empty range is `*`
+    for t in ["", " ", "1.2.3 || ", " || 1.2.3", "1.2.3 ||  || 2.0.0", "||", "1.2.3 ||", "   || 1.2.3-beta", "<1.0.0 ||   "] {
+        let mut rr: RefRange = vec![];
+        for part in t.split("||") {
+            let part = part.trim();
+            if part.is_empty() { rr.push(any_set()); } else if let Some(sm) = ss.iter().find(|s| s.text == part) { rr.push(sm.cs.clone()); }
+        }
+        out.push(Case { text: t.to_string(), rr });
+    }
     // garbage tokens containing a single `|` are dropped like any other garbage
     {
         let find = |t: &str| ss.iter().find(|s| s.text == t).map(|s| s.cs.clone()).unwrap();
@@ -418,6 +427,8 @@ fn gen_alternative(r: &mut Rng) -> (String, Option<CSet>) {
         return (format!("{} - {}", f.text, t.text), Some(npm_hyphen(&f.p, &t.p)));
     }
     if r.chance(4) { return (r.pick(&["foo", "bar baz", "#", "a|b", "V1.2.3", ">=V1", "1.2.3.4", "^V2", "1.2.3.", "1..2"]).to_string(), None); }
+    // the empty range is `*` (README grammar: range ::= ... | '')
+    if r.chance(3) { return (r.pick(&["", "", " ", "   "]).to_string(), Some(any_set())); }
     let n = 1 + if r.chance(60) { 0 } else if r.chance(85) { 1 + r.below(3) } else { 4 + r.below(4) };
     let mut text = String::new();
     let mut cs: CSet = vec![];
